@@ -303,6 +303,7 @@ def dict_method(ev, ref, o, meth, args, kwargs, node):
         default = args[1] if len(args) > 1 else NONE
         if k is None:
             ev.unsupported(node, "dict.get with symbolic key")
+        undeclared_read(ev, o, k, node)
         if k not in o.items or o.items[k] is ABSENT:
             return default
         v = o.items[k]
